@@ -914,3 +914,167 @@ Lemma retry_pinned_refuted :
   /\ map (fun p => c09_proj (snd p)) (deliver (exec rinit pinned_witness) d)
     = [[OSub 62 (CX 12 8 7 22 33); OFn; OPubDec 50; OPub]].
 Proof. split; reflexivity. Qed.
+
+(** * Round "proofs": the linearisation point of a handler's start with respect to registrations *)
+
+Lemma find_filter_other {A} (f g : A -> bool) l :
+  (forall x, f x = true -> g x = true) -> find f (filter g l) = find f l.
+Proof.
+  intros H. induction l as [|a l IH]; simpl; [reflexivity|].
+  destruct (g a) eqn:G; simpl.
+  - now destruct (f a).
+  - destruct (f a) eqn:F; [|assumption]. apply H in F. congruence.
+Qed.
+
+Lemma find_handler_name n st hs : find_handler n st = Some hs -> h_name (hs_cfg hs) = n.
+Proof. intros F. apply find_some in F as [_ F]. now apply N.eqb_eq in F. Qed.
+
+(** while handler n's goroutine has not reached its copy, nothing but that copy changes its status *)
+Lemma pending_kept st o n h decs :
+  pending_of st n = Some decs -> find_handler n st = Some (HS h None) -> o <> OSnap n ->
+  pending_of (step st o) n = Some decs /\ find_handler n (step st o) = Some (HS h None).
+Proof.
+  intros P F Ho. pose proof (find_handler_name _ _ _ F) as Hname. simpl in Hname.
+  destruct o as [h'|id app|hn id app|dd ff|dd ff| | |pn|sn|dl]; simpl; try (split; assumption).
+  - destruct (find_handler (h_name h') st); [split; assumption|]. split; [assumption|].
+    unfold find_handler in *. simpl. now rewrite find_snoc, F.
+  - destruct (first_unstarted st); [|split; assumption].
+    destruct (first_failing st (rev (pubdecs st))); [split; assumption|].
+    destruct (first_failing st (subdecs st)); [split; assumption|]. split; [assumption|].
+    unfold find_handler in *. simpl. rewrite find_map_inv.
+    2:{ intros x. unfold name_is, start_one. now destruct (waiting st x). }
+    rewrite F. simpl. unfold start_one, waiting, is_pending. simpl. rewrite Hname, P. reflexivity.
+  - destruct (first_unstarted st); [|split; assumption].
+    destruct (first_failing st (rev (pubdecs st))); [split; assumption|].
+    destruct (first_failing st (subdecs st)); [split; assumption|]. split; [|assumption].
+    unfold pending_of in *. simpl.
+    destruct (find (fun p => N.eqb (fst p) n) (pending st)) eqn:E; [|discriminate].
+    now rewrite (find_app_some _ _ _ _ E).
+  - assert (Hpn : pn <> n) by (intros ->; now apply Ho).
+    destruct (pending_of st pn) as [decs'|]; [|split; assumption]. split.
+    + unfold pending_of in *. simpl. rewrite find_filter_other; [assumption|].
+      intros x Hx. apply N.eqb_eq in Hx. apply negb_true_iff, N.eqb_neq. congruence.
+    + unfold find_handler in *. simpl. rewrite find_map_inv.
+      2:{ intros x. unfold snap_one. destruct (name_is pn x && unstarted x); reflexivity. }
+      rewrite F. simpl. unfold snap_one, name_is. simpl. rewrite Hname.
+      apply N.eqb_neq in Hpn. rewrite N.eqb_sym in Hpn. now rewrite Hpn.
+  - destruct (find_handler sn st) as [[c [s'|]]|] eqn:Fs; try (split; assumption). split; [assumption|].
+    assert (sn <> n). { intros ->. rewrite F in Fs. discriminate. }
+    unfold find_handler in *. simpl. rewrite find_filter_other; [assumption|].
+    intros x Hx. unfold name_is in *. apply N.eqb_eq in Hx. apply negb_true_iff, N.eqb_neq. congruence.
+Qed.
+
+(** the copy: handler n holds the registrations of THAT moment, with the decorator lists it froze at its start *)
+Lemma snap_takes st n h decs :
+  pending_of st n = Some decs -> find_handler n st = Some (HS h None) ->
+  find_handler n (step st (OSnap n)) = Some (HS h (Some (ST (mws st) (fst decs) (snd decs)))).
+Proof.
+  intros P F. pose proof (find_handler_name _ _ _ F) as Hname. simpl in Hname.
+  simpl. rewrite P. unfold find_handler in *. simpl. rewrite find_map_inv.
+  2:{ intros x. unfold snap_one. destruct (name_is n x && unstarted x); reflexivity. }
+  rewrite F. simpl. unfold snap_one, name_is. simpl. now rewrite Hname, N.eqb_refl.
+Qed.
+
+Lemma mws_step st o : mws (step st o) = mws st ++ regs_of [o].
+Proof.
+  destruct o as [h|id app|hn id app|dd ff|dd ff| | |pn|sn|dl]; simpl; rewrite ?app_nil_r; try reflexivity.
+  - now destruct (find_handler (h_name h) st).
+  - destruct (first_unstarted st); [|reflexivity].
+    destruct (first_failing _ (rev _)); [reflexivity|]. now destruct (first_failing _ (subdecs _)).
+  - destruct (first_unstarted st); [|reflexivity].
+    destruct (first_failing _ (rev _)); [reflexivity|]. now destruct (first_failing _ (subdecs _)).
+  - now destruct (pending_of st pn).
+  - now destruct (find_handler sn st) as [[c [s|]]|].
+Qed.
+Lemma mws_exec ops : forall st, mws (exec st ops) = mws st ++ regs_of ops.
+Proof.
+  induction ops as [|o ops IH]; intros st; [simpl; now rewrite app_nil_r|].
+  change (exec st (o :: ops)) with (exec (step st o) ops). rewrite IH, mws_step.
+  change (o :: ops) with ([o] ++ ops). unfold regs_of. rewrite flat_map_app. now rewrite app_assoc.
+Qed.
+
+Lemma frozen_exec post : forall st n h s,
+  find_handler n st = Some (HS h (Some s)) -> Forall (fun o => o <> OStop n) post ->
+  find_handler n (exec st post) = Some (HS h (Some s)).
+Proof.
+  induction post as [|o post IH]; intros st n h s F Hp; [assumption|]. inversion Hp; subst. simpl.
+  apply IH; [|assumption]. now apply started_frozen.
+Qed.
+
+(** THE THEOREM.  Handler n was started by a RunHandlers (its decorator lists [decs] are frozen) and its
+    goroutine has not yet copied r.middlewares.  Whatever happens before the copy ([mid]: registrations,
+    other starts, stops, failing attempts, other handlers' copies) and after it ([post], short of its own
+    Stop): its chain is built from exactly the registrations made BEFORE the copy — those of [mid]
+    included, those of [post] excluded —, in order. *)
+Theorem snapshot_linearisation mid : forall st n h decs post,
+  pending_of st n = Some decs -> find_handler n st = Some (HS h None) ->
+  Forall (fun o => o <> OSnap n) mid -> Forall (fun o => o <> OStop n) post ->
+  find_handler n (exec st (mid ++ OSnap n :: post)) =
+  Some (HS h (Some (ST (mws st ++ regs_of mid) (fst decs) (snd decs)))).
+Proof.
+  induction mid as [|o mid IH]; intros st n h decs post P F Hm Hp.
+  - change (exec st ([] ++ OSnap n :: post)) with (exec (step st (OSnap n)) post).
+    unfold regs_of. simpl. rewrite app_nil_r. apply frozen_exec; [|assumption]. now apply snap_takes.
+  - inversion Hm as [|? ? Ho Hm']; subst.
+    destruct (pending_kept st o n h decs P F Ho) as [P' F'].
+    change (exec st ((o :: mid) ++ OSnap n :: post)) with (exec (step st o) (mid ++ OSnap n :: post)).
+    rewrite (IH (step st o) n h decs post P' F' Hm' Hp), mws_step.
+    change (o :: mid) with ([o] ++ mid). unfold regs_of. rewrite flat_map_app. now rewrite app_assoc.
+Qed.
+
+(** how a handler gets there: a RunHandlers in which no constructor fails leaves every waiting handler
+    pending with the decorator lists of that moment *)
+Lemma find_map_filter_first st (l : list hstate) n hs :
+  NoDup (map hname l) -> In hs l -> hname hs = n -> waiting st hs = true ->
+  find (fun p => N.eqb (fst p) n)
+       (map (fun hs => (h_name (hs_cfg hs), frozen_decs st hs)) (filter (waiting st) l))
+  = Some (n, frozen_decs st hs).
+Proof.
+  induction l as [|a l IH]; simpl; [tauto|]. intros Hn Hin Hname Hw. inversion Hn as [|? ? Ha Hl]; subst.
+  destruct Hin as [->|Hin].
+  - rewrite Hw. simpl. unfold hname. now rewrite N.eqb_refl.
+  - destruct (waiting st a); simpl; [|now apply IH].
+    destruct (N.eqb (h_name (hs_cfg a)) (hname hs)) eqn:E; [|now apply IH].
+    apply N.eqb_eq in E. exfalso. apply Ha. fold (hname a) in E. rewrite E. now apply in_map.
+Qed.
+
+Lemma find_app_none {A} (f : A -> bool) l1 l2 : find f l1 = None -> find f (l1 ++ l2) = find f l2.
+Proof. induction l1 as [|a l1 IH]; simpl; [reflexivity|]. destruct (f a); [discriminate|assumption]. Qed.
+
+Theorem async_start_pending st hs :
+  NoDup (names st) -> In hs (handlers st) -> waiting st hs = true ->
+  first_failing st (rev (pubdecs st)) = None -> first_failing st (subdecs st) = None ->
+  pending_of (step st OStartAsync) (hname hs) = Some (frozen_decs st hs)
+  /\ find_handler (hname hs) (step st OStartAsync) = Some hs
+  /\ mws (step st OStartAsync) = mws st.
+Proof.
+  intros Hn Hin Hw H1 H2. simpl.
+  destruct (first_unstarted st) eqn:Fu.
+  2:{ unfold first_unstarted in Fu. apply (find_none _ _ Fu) in Hin. congruence. }
+  rewrite H1, H2. simpl. split; [|split; [|reflexivity]].
+  - unfold pending_of. simpl.
+    assert (Hnp : find (fun p => N.eqb (fst p) (hname hs)) (pending st) = None).
+    { unfold waiting, is_pending, pending_of in Hw. apply andb_true_iff in Hw as [_ Hw]. fold (hname hs) in Hw.
+      destruct (find (fun p => N.eqb (fst p) (hname hs)) (pending st)); [discriminate|reflexivity]. }
+    rewrite (find_app_none _ _ _ Hnp). now rewrite (find_map_filter_first st (handlers st) (hname hs) hs Hn Hin eq_refl Hw).
+  - now apply find_in_nodup.
+Qed.
+
+(** the synchronous [OStart] of the sequential programs = an asynchronous start whose copy follows at once *)
+Theorem start_is_async_then_snap st hs :
+  NoDup (names st) -> In hs (handlers st) -> waiting st hs = true ->
+  first_failing st (rev (pubdecs st)) = None -> first_failing st (subdecs st) = None ->
+  find_handler (hname hs) (step (step st OStartAsync) (OSnap (hname hs))) = find_handler (hname hs) (step st OStart).
+Proof.
+  intros Hn Hin Hw H1 H2.
+  destruct (async_start_pending st hs Hn Hin Hw H1 H2) as (P & F & M).
+  assert (Hs : hs_started hs = None).
+  { unfold waiting, unstarted in Hw. destruct (hs_started hs); [discriminate|reflexivity]. }
+  destruct hs as [c s0]. simpl in Hs. subst s0.
+  rewrite (snap_takes _ _ _ _ P F), M. simpl.
+  destruct (first_unstarted st) eqn:Fu.
+  2:{ unfold first_unstarted in Fu. apply (find_none _ _ Fu) in Hin. congruence. }
+  rewrite H1, H2. unfold find_handler. simpl. rewrite find_map_inv.
+  2:{ intros x. unfold name_is, start_one. now destruct (waiting st x). }
+  pose proof (find_in_nodup _ _ Hn Hin) as F0. rewrite F0. simpl. unfold start_one. now rewrite Hw.
+Qed.
